@@ -26,6 +26,7 @@
 -/
 import XotModel.Lemmas.FStack
 import XotModel.Lemmas.Scope10
+import XotModel.Lemmas.Scope10Sound
 import XotModel.Lemmas.TraceInv
 import XotModel.Lemmas.RepairDoc
 import XotModel.Lemmas.RepairFuel
@@ -36,26 +37,6 @@ import XotModel.Lemmas.SerResolveTop
 namespace XotModel.Props
 open XotModel
 
-/-- The namespace a prefix denotes in the scope `fs`: the `xml` prefix is reserved (XML Namespaces
-    §3: bound by definition to the XML namespace), any other prefix has its nearest declaration. -/
-def resolvePrefix (fs : Frames) (p : Nat) : Option Nat :=
-  if p == Env.xmlPrefix then some Env.xmlNamespace else lookupFrames fs p
-
-/-- The namespace an element name written with prefix `p` (`none` = unprefixed) denotes in the scope
-    `fs` (XML Namespaces §6.2: an unprefixed element takes the default namespace, if any). -/
-def resolveElementName (fs : Frames) : Option Nat → Option Nat
-  | some p => resolvePrefix fs p
-  | none => some ((lookupFrames fs Env.emptyPrefix).getD Env.noNamespace)
-
-/-- … an attribute name (an unprefixed attribute is in no namespace). -/
-def resolveAttributeName (fs : Frames) : Option Nat → Option Nat
-  | some p => resolvePrefix fs p
-  | none => some Env.noNamespace
-
-/-- Namespace constraint on the tree: the reserved prefix `xml` is not declared for another
-    namespace (XML Namespaces §3, "Reserved Prefixes and Namespace Names"). -/
-def XmlPrefixReserved (fs : Frames) : Prop :=
-  ∀ n, lookupFrames fs Env.xmlPrefix = some n → n = Env.xmlNamespace
 
 /-! ### The stack invariant -/
 
@@ -87,15 +68,11 @@ theorem C10_stack_pop (s : FStack) (decls : List (Nat × Nat)) :
 /-! ### Soundness of the chosen prefix -/
 
 /-- Under the reserved-prefix constraint, XML-Namespaces resolution of a prefix is its nearest
-    declaration. -/
+    declaration.  (`resolvePrefix`, `resolveElementName`, `resolveAttributeName`, `XmlPrefixReserved`:
+    Lemmas/Scope10Sound.lean.) -/
 theorem C10_resolve_lookup {fs : Frames} (hx : XmlPrefixReserved fs) {q ns : Nat}
-    (hl : lookupFrames fs q = some ns) : resolvePrefix fs q = some ns := by
-  unfold resolvePrefix
-  by_cases hq : (q == Env.xmlPrefix) = true
-  · have : q = Env.xmlPrefix := by simpa using hq
-    subst this
-    simp [hx ns hl]
-  · simp [hq, hl]
+    (hl : lookupFrames fs q = some ns) : resolvePrefix fs q = some ns :=
+  resolve_lookup hx hl
 
 /-- The prefix `element_prefix` answers resolves to the name's namespace whenever the check of the
     `StartTagOpen` arm passes (the name is not a no-namespace name while `has_default_namespace`).
@@ -103,43 +80,8 @@ theorem C10_resolve_lookup {fs : Frames} (hx : XmlPrefixReserved fs) {q ns : Nat
 theorem C10_sound_prefix (env : Env) (s : FStack) (fs : Frames) (name : Nat) (p : Option Nat)
     (hinv : StackInv s fs) (hx : XmlPrefixReserved fs) (h : s.elementPrefix env name = .ok p)
     (hcheck : ¬ (env.nsOfName name = Env.noNamespace ∧ s.hasDefaultNamespace = true)) :
-    resolveElementName fs p = some (env.nsOfName name) := by
-  obtain ⟨_, hflat⟩ := hinv.flat
-  unfold FStack.elementPrefix at h
-  by_cases hns : (env.nsOfName name == Env.noNamespace) = true
-  · simp only [hns, if_true] at h
-    cases h
-    have hz : env.nsOfName name = Env.noNamespace := by simpa using hns
-    have hnd : ¬ s.hasDefaultNamespace = true := fun hd => hcheck ⟨hz, hd⟩
-    rw [hasDefaultNamespace_iff hinv.flat] at hnd
-    simp only [resolveElementName, hz, Option.some.injEq]
-    cases hl : lookupFrames fs Env.emptyPrefix with
-    | none => rfl
-    | some n =>
-      by_cases hn : n = Env.noNamespace
-      · simp [hn]
-      · exact absurd ⟨n, hl, hn⟩ hnd
-  · simp only [hns] at h
-    by_cases hxml : (env.nsOfName name == Env.xmlNamespace) = true
-    · simp only [hxml, if_true] at h
-      cases h
-      have hz : env.nsOfName name = Env.xmlNamespace := by simpa using hxml
-      simp [resolveElementName, resolvePrefix, hz]
-    · simp only [hxml] at h
-      cases hp : elementPrefixByNamespace s.top (env.nsOfName name) with
-      | none => simp [hp] at h
-      | some q =>
-        have hl := (hflat q _).mp (elementPrefixByNamespace_mem hp)
-        simp only [hp] at h
-        by_cases hq : (q == Env.emptyPrefix) = true
-        · simp only [hq, if_true] at h
-          cases h
-          have : q = Env.emptyPrefix := by simpa using hq
-          subst this
-          simp [resolveElementName, hl]
-        · simp only [hq] at h
-          cases h
-          simpa [resolveElementName] using C10_resolve_lookup hx hl
+    resolveElementName fs p = some (env.nsOfName name) :=
+  sound_prefix env s fs name p hinv hx h hcheck
 
 /-- Element names, FULL strength (no guard): whenever `render_output` renders a `StartTagOpen`, the
     token is `<` + the qualified name built from a prefix that resolves — in the declarations of the
@@ -182,29 +124,8 @@ theorem C10_sound_refused (esc : Escapers) (env : Env) (pr : TokenParams) (s : F
     namespace, and an attribute is written unprefixed only when it is in no namespace. -/
 theorem C10_sound_attribute (env : Env) (s : FStack) (fs : Frames) (name : Nat) (p : Option Nat)
     (hinv : StackInv s fs) (hx : XmlPrefixReserved fs) (h : s.attributePrefix env name = .ok p) :
-    resolveAttributeName fs p = some (env.nsOfName name) ∧ p ≠ some Env.emptyPrefix := by
-  obtain ⟨_, hflat⟩ := hinv.flat
-  unfold FStack.attributePrefix at h
-  by_cases hns : (env.nsOfName name == Env.noNamespace) = true
-  · simp only [hns, if_true] at h
-    cases h
-    have hz : env.nsOfName name = Env.noNamespace := by simpa using hns
-    simp [resolveAttributeName, hz]
-  · simp only [hns] at h
-    by_cases hxml : (env.nsOfName name == Env.xmlNamespace) = true
-    · simp only [hxml, if_true] at h
-      cases h
-      have hz : env.nsOfName name = Env.xmlNamespace := by simpa using hxml
-      refine ⟨by simp [resolveAttributeName, resolvePrefix, hz], by decide⟩
-    · simp only [hxml] at h
-      cases hp : attributePrefixByNamespace s.top (env.nsOfName name) with
-      | none => simp [hp] at h
-      | some q =>
-        obtain ⟨hmem, hne⟩ := attributePrefixByNamespace_mem hp
-        have hl := (hflat q _).mp hmem
-        simp only [hp] at h
-        cases h
-        exact ⟨by simpa [resolveAttributeName] using C10_resolve_lookup hx hl, by simpa using hne⟩
+    resolveAttributeName fs p = some (env.nsOfName name) ∧ p ≠ some Env.emptyPrefix :=
+  sound_attribute env s fs name p hinv hx h
 
 /-! ### Errors: exactly when no usable prefix is in scope -/
 
